@@ -35,7 +35,7 @@ func checkC17(c *Ctx) {
 	rng := rand.New(rand.NewSource(c.Seed))
 	nrepos, reps := 3, 2
 	if !quick(c) {
-		nrepos, reps = 20, 8
+		nrepos, reps = 8, 4 // 8 x 10 modes x 4 GOMAXPROCS x 4 = 1 280 runs of the -race build
 	}
 	// competing CPU load while the repeated runs execute
 	stop := make(chan struct{})
